@@ -371,7 +371,7 @@ var checks = map[string]Check{
 	},
 	"C20": {
 		Level:       "model_checking",
-		Rule:        "differential explicit-state enumeration: every first-user operation sequence up to depth 3 (quick) / 4 over the setter alphabet of Message (13 setters), Args (6), pooled Socket (5) and the handler context (10 ways to dirty it x handler returns / fails / panics; plus every sequence of messages for unregistered routes with empty/short/long bodies on two sessions, handled by the unknown-call/unknown-push handlers), release to the (LIFO) pool, re-acquire with pointer identity asserted, then every second-user sequence of length <=2; all public getters, the decode path and the packed bytes must equal those of a freshly constructed object; for contexts the second handler's view and the exact reply bytes are compared with the fresh-context reference",
+		Rule:        "differential explicit-state enumeration: every first-user operation sequence up to depth 3 (quick) / 4 over the setter alphabet of Message (15 operations, reading the message back included), Args (6), pooled Socket (5) and the handler context (10 ways to dirty it x handler returns / fails / panics; plus every sequence of messages for unregistered routes with empty/short/long bodies on two sessions, handled by the unknown-call/unknown-push handlers), release to the (LIFO) pool, re-acquire with pointer identity asserted, then every second-user sequence of length <=2; all public getters, the decode path and the packed bytes must equal those of a freshly constructed object; for contexts the second handler's view and the exact reply bytes are compared with the fresh-context reference",
 		Assumptions: baseAssumptions,
 		Jobs: func(tier string) []Job {
 			d := "3"
@@ -399,13 +399,13 @@ var checks = map[string]Check{
 	},
 	"C09": {
 		Level:       "model_checking",
-		Rule:        "every plugin configuration of the alphabet {0-2 global-left, 0-1 global-right, group nesting depth 0-2 with/without group plugins, with/without a handler-level plugin, late append none/left/right, plugins implementing all stages or exactly one, no veto or one veto at every (plugin, pre-handler stage)} for calls and pushes is run on live sessions under every non-preemptive schedule; the recorded (plugin, stage, seq) trace is compared with a reference trace builder written from the documentation; a second route without group/handler plugins checks scoping; sibling registrations check chain isolation; calling-side stages and vetoes are enumerated separately; a handler whose result cannot be encoded (error reply written instead) may skip the post-write stage but fires no stage twice",
+		Rule:        "every plugin configuration of the alphabet {0-2 global-left, 0-1 global-right, group nesting depth 0-2 with/without group plugins, with/without a handler-level plugin, late append none/left/right or late removal of a global plugin, plugins implementing all stages or exactly one, no veto or one veto at every (plugin, pre-handler stage)} for calls and pushes is run on live sessions under every non-preemptive schedule; the recorded (plugin, stage, seq) trace is compared with a reference trace builder written from the documentation; a second route without group/handler plugins checks scoping; sibling registrations check chain isolation; calling-side stages and vetoes are enumerated separately; a handler whose result cannot be encoded (error reply written instead) may skip the post-write stage but fires no stage twice",
 		Assumptions: baseAssumptions,
 		Jobs: func(tier string) []Job {
 			var js []Job
 			b := 0
 			for _, k := range []string{"call", "push"} {
-				for _, l := range []string{"none", "left", "right"} {
+				for _, l := range []string{"none", "left", "right", "remove"} {
 					js = append(js, sched("c09", "kind="+k+",late="+l, b, 2))
 				}
 			}
